@@ -3,9 +3,10 @@
 New functions (not in this inventory) are treated as freshly extracted helpers and expanded into their callers at load time (sigstat/inline.py)."""
 import ast, json, os, sys
 sys.path.insert(0, os.path.dirname(os.path.dirname(os.path.abspath(__file__))))
-from sigstat.inline import enumerate_defs, INVENTORY
+from sigstat.inline import enumerate_defs, module_globals, INVENTORY
 repo = sys.argv[1] if len(sys.argv) > 1 else "/repo"
 funcs = []
+globs = []
 pkg = os.path.join(repo, "signac")
 for dp, dn, fns in os.walk(pkg):
     dn[:] = sorted(d for d in dn if d not in ("_vendor", "__pycache__"))
@@ -16,6 +17,8 @@ for dp, dn, fns in os.walk(pkg):
             mod = rel[:-3].replace(os.sep, ".")
             if mod.endswith(".__init__"):
                 mod = mod[:-9]
-            funcs += [d.qual for d in enumerate_defs(mod, ast.parse(open(full).read()))]
-json.dump({"comment": "function inventory of the reference tree; see sigstat/inline.py", "functions": sorted(set(funcs))}, open(INVENTORY, "w"), indent=0)
+            tree = ast.parse(open(full).read())
+            funcs += [d.qual for d in enumerate_defs(mod, tree)]
+            globs += module_globals(mod, tree)
+json.dump({"comment": "function inventory of the reference tree; see sigstat/inline.py", "functions": sorted(set(funcs)), "globals": sorted(set(globs))}, open(INVENTORY, "w"), indent=0)
 print(len(set(funcs)), "functions")
